@@ -137,6 +137,10 @@ def run(tier, seed):
                 m = re.match(r'@(\d+)\+? (.*)', l)
                 if m:
                     evs.setdefault(int(m.group(1)), []).extend(m.group(2).split())
+                m = re.match(r'R@(\d+) \d+ : ?(.*)', l)
+                if m and m.group(2).split():
+                    # a forwarded OS repeat: reported right after the event, i.e. "between" tick t and t+1
+                    evs.setdefault(int(m.group(1)) + 1, []).extend(m.group(2).split())
             t = c['pre']
             ok = True
             for kcode in c['keys']:
@@ -185,7 +189,7 @@ def run(tier, seed):
         for c in mcases:
             evals += 1
             it = mres.get(c['id'])
-            if not it or it[0].startswith('PARSE'):
+            if not it or it[0].startswith(('PARSE', 'REJECTED')):
                 continue
             got = set(int(x) for x in it[0].split()[1:])
             nontriv.add(('mapped', tuple(sorted(got))[:40]))
